@@ -144,6 +144,7 @@ Section Word.
               | None => None
               | Some a =>
                   if negb (is_id_char d && is_kw kws (word_before (fst p) [])) || oc_is is_id_char (snd p)
+                     || follows_dot a
                   then Some a else Some last_atom
               end
             else Some last_atom
@@ -222,9 +223,9 @@ Section Word.
     rewrite pwds_loop_S. cbn [fst snd].
     destruct l as [|c2 l2].
     - cbn [fst snd]. rewrite Hc, orb_true_r, (atom_start_word n c [] nx Hc).
-      destruct (negb _ || _); eexists; split; try reflexivity; auto.
+      destruct (negb _ || _ || _); eexists; split; try reflexivity; auto.
     - rewrite (id_not_close2 c Hc). cbn [fst snd]. rewrite Hc, orb_true_r, (atom_start_word n c (c2 :: l2) nx Hc).
-      destruct (negb _ || _); eexists; split; try reflexivity; auto.
+      destruct (negb _ || _ || _); eexists; split; try reflexivity; auto.
   Qed.
 
   (* the loop of _find_primary_start stops at once when no dot precedes *)
@@ -265,6 +266,78 @@ Section Word.
         rewrite (id_not_space c2 Hc2). cbn [fst]. exact (id_not_dot c2 Hc2).
   Qed.
 End Word.
+
+(* ------------------------------------------------------------------ dotted prefixes *)
+Lemma word_start_snd r L nx :
+  r <> [] -> forallb is_id_char r = true -> no_id_head L = true ->
+  oc_is is_id_char (snd (word_start (r ++ L) nx)) = true.
+Proof.
+  revert nx. induction r as [|c r IH]; intros nx Hne Hr HL; [congruence|].
+  cbn in Hr. apply andb_prop in Hr as [Hc Hr]. cbn [app word_start]. rewrite Hc.
+  destruct r as [|c2 r2].
+  - cbn [app]. destruct L as [|d L]; cbn [word_start snd oc_is]; [exact Hc|].
+    cbn in HL. destruct (is_id_char d); [discriminate|]. exact Hc.
+  - apply IH; [discriminate | exact Hr | exact HL].
+Qed.
+
+Lemma follows_dot_head (a : pos) l : fst a = ch_dot :: l -> follows_dot a = true.
+Proof.
+  destruct a as [al an]. cbn [fst]. intros ->. unfold follows_dot. cbn [fst snd last_non_space].
+  change (is_space ch_dot) with false. cbn [fst]. reflexivity.
+Qed.
+
+Section Dotted.
+  Variable kws : list text.
+  Variable lastc : N.
+
+  Lemma pwds_word_exact n c l nx :
+    is_id_char c = true ->
+    is_kw kws (word_before (c :: l) []) = false \/ oc_is is_id_char nx = true
+    \/ follows_dot (word_start (c :: l) nx) = true ->
+    primary_wo_dot_start kws lastc (S (S n)) (c :: l) nx = Some (word_start (c :: l) nx).
+  Proof.
+    intros Hc Hk. rewrite pwds_S. cbn [last_non_space]. rewrite (id_not_space c Hc).
+    rewrite pwds_loop_S. cbn [fst snd].
+    assert (Hcond : negb (is_id_char c && is_kw kws (word_before (c :: l) [])) || oc_is is_id_char nx
+                    || follows_dot (word_start (c :: l) nx) = true).
+    { destruct Hk as [-> | [-> | ->]]; [now rewrite andb_false_r | now rewrite orb_true_r | apply orb_true_r]. }
+    destruct l as [|c2 l2].
+    - cbn [fst snd]. rewrite (atom_start_word kws lastc n c [] nx Hc), Hcond, Hc, orb_true_r. reflexivity.
+    - rewrite (id_not_close2 c Hc). cbn [fst snd].
+      rewrite (atom_start_word kws lastc n c (c2 :: l2) nx Hc), Hcond, Hc, orb_true_r. reflexivity.
+  Qed.
+
+  (* the loop of _find_primary_start at the boundary just after [v.]: one turn, back to the start of v *)
+  Lemma primary_loop_one_dot n c r L nx :
+    forallb is_id_char (c :: r) = true ->
+    is_kw kws (rev (c :: r)) = false ->
+    ends_from (c :: r ++ L) = false ->
+    no_id_head L = true ->
+    match fst (last_non_space L None) with
+    | [] => N.eqb lastc ch_dot = false
+    | d :: _ => N.eqb d ch_dot = false
+    end ->
+    exists nx', primary_loop kws lastc (S (S (S (S n)))) (ch_dot :: c :: r ++ L, nx) = Some (L, nx')
+                /\ oc_is is_id_char nx' = true.
+  Proof.
+    intros Hv Hkw Hfrom HL Hb.
+    assert (Hc : is_id_char c = true) by (cbn in Hv; now apply andb_prop in Hv as [? _]).
+    rewrite primary_loop_S. cbn [fst snd last_non_space].
+    change (is_space ch_dot) with false. cbv zeta. cbn [fst].
+    change (N.eqb ch_dot ch_dot) with true. cbn [negb].
+    cbn [last_non_space]. rewrite (id_not_space c Hc). cbn [fst]. rewrite Hfrom.
+    assert (Hwb : word_before (c :: r ++ L) [] = rev (c :: r)).
+    { change (c :: r ++ L) with ((c :: r) ++ L). rewrite (word_before_app (c :: r) L [] Hv HL). apply app_nil_r. }
+    rewrite (pwds_word_exact (S n) c (r ++ L) (Some ch_dot) Hc); [|left; rewrite Hwb; exact Hkw].
+    assert (Hid : oc_is is_id_char (snd (word_start (c :: r ++ L) (Some ch_dot))) = true).
+    { change (c :: r ++ L) with ((c :: r) ++ L). apply word_start_snd; [discriminate | exact Hv | exact HL]. }
+    rewrite Hid.
+    assert (HwL : fst (word_start (c :: r ++ L) (Some ch_dot)) = L).
+    { change (c :: r ++ L) with ((c :: r) ++ L). now apply word_start_app. }
+    destruct (word_start (c :: r ++ L) (Some ch_dot)) as [ql qn]. cbn [fst snd] in *. subst ql.
+    exists qn. split; [|exact Hid]. apply primary_loop_stops. now rewrite (fst_last_non_space L qn None).
+  Qed.
+End Dotted.
 
 (* ------------------------------------------------------------------ the theorem *)
 Lemma forallb_rev {A} (f : A -> bool) l : forallb f (rev l) = forallb f l.
@@ -330,3 +403,171 @@ Lemma split_identifier_example :
               ([120; 32; 61; 32] ++ [97; 108] ++ [112; 10])%N 6
      = Some ([], [97; 108]%N, 4%N).
 Proof. vm_compute. split; reflexivity. Qed.
+
+(* ------------------------------------------------------------------ the dotted theorem *)
+Lemma dot_facts :
+  N.eqb ch_dot ch_nl = false /\ is_space ch_dot = false /\ is_quote ch_dot = false /\ is_close ch_dot = false
+  /\ is_id_char ch_dot = false /\ N.eqb ch_dot ch_dot = true.
+Proof. vm_compute. repeat split. Qed.
+
+Lemma rev_nonempty (w : text) : w <> [] -> exists c r, rev w = c :: r.
+Proof.
+  intros H. destruct (rev w) as [|c r] eqn:E; [|eauto].
+  apply (f_equal (@rev N)) in E. rewrite rev_involutive in E. now subst.
+Qed.
+
+Lemma nth_ch_app a b : nth_ch (a ++ b) (tlen a) = hd_error b.
+Proof. unfold nth_ch. now rewrite drop_app. Qed.
+
+Theorem split_dotted_prefix (kws : list text) (pre v w post raw : text) :
+  v <> [] -> forallb is_id_char v = true -> is_kw kws v = false ->
+  forallb is_id_char w = true ->
+  ends_from (rev v ++ rev pre) = false ->
+  word_boundary_before (rev pre) (last (pre ++ v ++ ch_dot :: w ++ post) 0%N) = true ->
+  split_in kws (pre ++ v ++ ch_dot :: w ++ post) raw (tlen pre + tlen v + 1 + tlen w)
+  = Some (slice raw (tlen pre) (tlen pre + tlen v),
+          slice raw (tlen pre + tlen v + 1) (tlen pre + tlen v + 1 + tlen w),
+          (tlen pre + tlen v + 1)%N).
+Proof.
+  intros Hvne Hv Hvk Hw Hfrom Hb.
+  unfold word_boundary_before in Hb. apply andb_prop in Hb as [HL Hdot].
+  destruct dot_facts as (Dnl & Dsp & Dq & Dcl & Did & Ddd).
+  set (P := pre ++ v ++ [ch_dot]).
+  assert (Ecode : pre ++ v ++ ch_dot :: w ++ post = P ++ w ++ post).
+  { unfold P. now rewrite <- !app_assoc. }
+  rewrite Ecode in *. set (code := P ++ w ++ post) in *. set (lastc := last code 0%N) in *.
+  assert (HP : tlen P = (tlen pre + tlen v + 1)%N).
+  { unfold P. rewrite !tlen_app. unfold tlen at 3. cbn [length]. lia. }
+  rewrite <- HP. set (o := (tlen P + tlen w)%N).
+  assert (Ho : N.eqb o 0 = false) by (apply N.eqb_neq; unfold o; lia).
+  assert (Htake : take o code = P ++ w).
+  { unfold o, code. rewrite <- tlen_app, app_assoc. apply take_app. }
+  destruct (rev_nonempty v Hvne) as (cv & rv & Erv).
+  assert (Hcv : forallb is_id_char (cv :: rv) = true) by (rewrite <- Erv, forallb_rev; exact Hv).
+  assert (Hkv : is_kw kws (rev (cv :: rv)) = false) by (rewrite <- Erv, rev_involutive; exact Hvk).
+  assert (Hfrom' : ends_from (cv :: rv ++ rev pre) = false) by (rewrite app_comm_cons, <- Erv; exact Hfrom).
+  assert (Hbound : match fst (last_non_space (rev pre) None) with
+                   | [] => N.eqb lastc ch_dot = false
+                   | d :: _ => N.eqb d ch_dot = false
+                   end).
+  { destruct (fst (last_non_space (rev pre) None)); now apply negb_true_iff. }
+  assert (ErP : rev P = ch_dot :: cv :: rv ++ rev pre).
+  { unfold P. rewrite !rev_app_distr, Erv. reflexivity. }
+  assert (Hlen : exists m, length code + length code = S (S (S (S m)))).
+  { assert (2 <= length code)%nat.
+    { unfold code, P. rewrite !app_length. cbn [length]. destruct v; [congruence|]. cbn [length]. lia. }
+    destruct (length code) as [|[|k]]; try lia. exists (k + k)%nat. lia. }
+  destruct Hlen as [m Hm].
+  assert (HslP : slice code (tlen pre) (tlen pre + tlen v) = v).
+  { unfold code, P. rewrite <- !app_assoc. apply slice_mid. }
+  unfold split_in. fold code. fold o. rewrite Ho, Htake, rev_app_distr, ErP, Hm. fold lastc.
+  set (nx := nth_ch code o).
+  assert (Hnx : nx = hd_error post).
+  { unfold nx, o, code. rewrite <- tlen_app, app_assoc. apply nth_ch_app. }
+  destruct w as [|w0 w'].
+  - (* the cursor is right after the dot *)
+    cbn [rev app]. rewrite Dsp. cbn [andb].
+    rewrite atom_start_S, Dnl, Dsp. cbn [fst snd at_]. rewrite Dq, Dcl, Did.
+    rewrite primary_start_S, Ddd.
+    destruct (primary_loop_one_dot kws lastc (S (S (S m))) cv rv (rev pre) nx Hcv Hkv Hfrom' HL Hbound) as [nx' [-> _]].
+    unfold plen. cbn [fst]. rewrite app_comm_cons, <- Erv, <- rev_app_distr.
+    replace (N.of_nat (length (rev (pre ++ v)))) with (tlen pre + tlen v)%N
+      by (unfold tlen; rewrite rev_length, app_length, Nat2N.inj_add; reflexivity).
+    replace (N.of_nat (length (rev pre))) with (tlen pre) by (unfold tlen; now rewrite rev_length).
+    assert (Eo : o = (tlen pre + tlen v + 1)%N) by (unfold o, tlen at 2; cbn [length]; lia).
+    assert (Es1 : slice code (tlen pre + tlen v) o = [ch_dot]).
+    { unfold code, P. rewrite Eo. replace (tlen pre + tlen v)%N with (tlen (pre ++ v)) by apply tlen_app.
+      change 1%N with (tlen [ch_dot]).
+      replace (pre ++ v ++ [ch_dot]) with ((pre ++ v) ++ [ch_dot]) by now rewrite app_assoc.
+      rewrite <- app_assoc. apply (slice_mid (pre ++ v) [ch_dot] ([] ++ post)). }
+    rewrite Es1. cbn [blank forallb]. rewrite Dsp. cbn [andb].
+    replace (N.pred o) with (tlen pre + tlen v)%N by lia.
+    rewrite HslP, (blank_word v Hvne Hv).
+    assert (Hneq : N.eqb (tlen pre) (tlen pre + tlen v) = false).
+    { apply N.eqb_neq. destruct v; [congruence|]. rewrite tlen_cons. lia. }
+    rewrite Hneq. cbn [andb].
+    rewrite (slice_empty raw (tlen P) o) by (unfold o, tlen at 2; cbn [length]; lia).
+    rewrite HP, Eo. reflexivity.
+  - (* a word after the dot *)
+    destruct (rev_nonempty (w0 :: w') ltac:(discriminate)) as (c & r & Erw).
+    assert (Hcr : forallb is_id_char (c :: r) = true) by (rewrite <- Erw, forallb_rev; exact Hw).
+    assert (Hc : is_id_char c = true) by (cbn in Hcr; now apply andb_prop in Hcr as [? _]).
+    assert (Hw0 : is_id_char w0 = true) by (cbn in Hw; now apply andb_prop in Hw as [? _]).
+    rewrite Erw. cbn [app]. rewrite (id_not_space c Hc). cbn [andb].
+    set (Ld := ch_dot :: cv :: rv ++ rev pre).
+    assert (HLd : no_id_head Ld = true) by (unfold Ld; cbn [no_id_head]; now rewrite Did).
+    rewrite (atom_start_word kws lastc _ c (r ++ Ld) nx Hc).
+    rewrite primary_start_S, (id_not_dot c Hc).
+    assert (Hwb : word_before (c :: r ++ Ld) [] = w0 :: w').
+    { change (c :: r ++ Ld) with ((c :: r) ++ Ld). rewrite (word_before_app (c :: r) Ld [] Hcr HLd), app_nil_r.
+      rewrite <- Erw. apply rev_involutive. }
+    assert (HwsL : fst (word_start (c :: r ++ Ld) nx) = Ld).
+    { change (c :: r ++ Ld) with ((c :: r) ++ Ld). now apply word_start_app. }
+    rewrite (pwds_word_exact kws lastc (S (S (S (S (S m))))) c (r ++ Ld) nx Hc);
+      [|right; right; apply (follows_dot_head _ (cv :: rv ++ rev pre)); exact HwsL].
+    destruct (word_start (c :: r ++ Ld) nx) as [ql qn] eqn:Eq. cbn [fst] in HwsL. subst ql.
+    unfold Ld at 1.
+    destruct (primary_loop_one_dot kws lastc (S (S (S m))) cv rv (rev pre) qn Hcv Hkv Hfrom' HL Hbound) as [nx' [-> _]].
+    unfold plen. cbn [fst].
+    assert (ELd : N.of_nat (length Ld) = tlen P).
+    { unfold Ld. rewrite <- ErP. unfold tlen. now rewrite rev_length. }
+    rewrite ELd.
+    replace (N.of_nat (length (rev pre))) with (tlen pre) by (unfold tlen; now rewrite rev_length).
+    assert (Hsw : slice code (tlen P) o = w0 :: w') by (apply slice_mid).
+    rewrite Hsw, (blank_word (w0 :: w') ltac:(discriminate) Hw).
+    assert (HsPv : slice code (tlen pre) (tlen P) = v ++ [ch_dot]).
+    { rewrite HP. unfold code, P. replace (tlen pre + tlen v + 1)%N with (tlen pre + tlen (v ++ [ch_dot]))%N
+        by (rewrite tlen_app; unfold tlen at 3; cbn [length]; lia).
+      rewrite <- !app_assoc. rewrite (app_assoc v [ch_dot]). apply slice_mid. }
+    rewrite HsPv.
+    assert (Hbl : blank (v ++ [ch_dot]) = false).
+    { destruct v as [|v0 v']; [congruence|]. cbn in Hv. apply andb_prop in Hv as [Hv0 _].
+      unfold blank. cbn [app forallb]. now rewrite (id_not_space v0 Hv0). }
+    rewrite Hbl.
+    assert (Hneq : N.eqb (tlen pre) (tlen P) = false) by (apply N.eqb_neq; lia).
+    rewrite Hneq. cbn [andb].
+    assert (Hcws : nth_ch code (tlen P) = Some w0) by (unfold code; apply nth_ch_app).
+    rewrite Hcws, (id_not_dot w0 Hw0), (id_not_space w0 Hw0).
+    assert (HtP : take (tlen P) code = P) by (unfold code; apply take_app).
+    rewrite HtP, ErP. cbn [last_non_space]. rewrite Dsp. cbn [fst tl hd_error last_non_space].
+    rewrite (id_not_space cv (proj1 (andb_prop _ _ Hcv))). cbn [fst].
+    replace (N.of_nat (length (cv :: rv ++ rev pre))) with (tlen pre + tlen v)%N.
+    2:{ rewrite app_comm_cons, <- Erv, <- rev_app_distr, rev_length, app_length, Nat2N.inj_add. reflexivity. }
+    rewrite HP. reflexivity.
+Qed.
+
+(* "x = os.is|\n": the attribute prefix is spelled like a keyword *)
+Lemma split_dotted_example :
+  let kws := [[105; 115]; [102; 111; 114]]%N in
+  let pre := [120; 32; 61; 32]%N in let v := [111; 115]%N in let w := [105; 115]%N in let post := [10]%N in
+  is_kw kws v = false /\ is_kw kws w = true /\ ends_from (rev v ++ rev pre) = false
+  /\ word_boundary_before (rev pre) (last (pre ++ v ++ ch_dot :: w ++ post) 0%N) = true
+  /\ split_in kws (pre ++ v ++ ch_dot :: w ++ post) (pre ++ v ++ ch_dot :: w ++ post) 9 = Some (v, w, 7%N).
+Proof. vm_compute. repeat split. Qed.
+
+(* ------------------------------------------------------------------ after a blank *)
+(* the character before the cursor is white space and the last non-blank character before it on the line is not
+   a dot: nothing is being typed, whatever precedes *)
+Theorem split_after_blank (kws : list text) (pre post raw : text) (c : N) :
+  is_space c = true ->
+  oc_is (N.eqb ch_dot) (hd_error (fst (last_non_space (c :: rev pre) (hd_error post)))) = false ->
+  split_in kws (pre ++ c :: post) raw (tlen pre + 1) = Some ([], [], (tlen pre + 1)%N).
+Proof.
+  intros Hc Hd. unfold split_in.
+  assert (Ho : N.eqb (tlen pre + 1) 0 = false) by (apply N.eqb_neq; lia).
+  assert (Htake : take (tlen pre + 1) (pre ++ c :: post) = pre ++ [c]).
+  { replace (tlen pre + 1)%N with (tlen (pre ++ [c])) by (rewrite tlen_app; reflexivity).
+    replace (pre ++ c :: post) with ((pre ++ [c]) ++ post) by (rewrite <- app_assoc; reflexivity).
+    apply take_app. }
+  assert (Hnx : nth_ch (pre ++ c :: post) (tlen pre + 1) = hd_error post).
+  { replace (tlen pre + 1)%N with (tlen (pre ++ [c])) by (rewrite tlen_app; reflexivity).
+    replace (pre ++ c :: post) with ((pre ++ [c]) ++ post) by (rewrite <- app_assoc; reflexivity).
+    apply nth_ch_app. }
+  rewrite Ho, Htake, Hnx, rev_app_distr. cbn [rev app]. rewrite Hc, Hd. reflexivity.
+Qed.
+
+Lemma split_after_blank_example :
+  split_in [[105; 102]]%N [97; 98; 99; 32]%N [97; 98; 99; 32]%N 4 = Some ([], [], 4%N)
+  /\ split_in [[105; 102]]%N [97; 46; 98; 32]%N [97; 46; 98; 32]%N 4 = Some ([], [], 4%N)
+  /\ split_in [[105; 102]]%N [97; 46; 32]%N [97; 46; 32]%N 3 = Some ([97%N], [], 3%N).
+Proof. vm_compute. repeat split. Qed.
